@@ -14,6 +14,21 @@ non-water name, dropped / reversed N-H and O-H bonds, backbone atoms deleted, re
 residues -- water / ion / ligand fragments -- prepended, inserted between residues or chains, chains split), unit cells
 of every class with w_min >= ~1.1 nm, the structure translated and single atoms shifted by lattice vectors.
 
+Widening round (cases with id >= 10**6, `_wide_cases`; the stream above is unchanged).  Input classes added:
+64-257 frame trajectories in which the bonds exist only in the last 1-3 frames (consecutive simulation frames of
+frame0.h5 / NMR models at the end of blown-up copies), with freq sitting at (k-1)/n, k/n, (k+1)/n; per-frame cells in
+which exactly one of the six parameters changes and cells whose class changes along the trajectory; structures without
+any hydrogen (crystal structures 1bpi, 4OH9, or all H stripped), cut down to 1-3 residues, without protein (RNA,
+ligand, water boxes), with ACE / NME / NH2 caps (alanine dipeptide, GG, AAQAA) as Kabsch-Sander input; the atoms of a
+residue listed in another order (H before its N/O, O before N: bonds then read (H, N) in the topology); numpy scalars
+for freq / cutoffs / flags and all arguments passed positionally; for kabsch_sander also non-standard residue names
+(DAL, MSE, HYP ...), 3-8 chain cuts, hetero residues CA (calcium, an atom named CA), ACE, NME, NH2 and a ligand that
+has all four backbone names; monitor history.in-place-edit: after the calls the SAME Topology object is edited in
+place (residue renamed to / from a water name or PRO, atom renamed, element changed, add_bond, insert_atom) and the
+next call on it must equal the call on a freshly built equal topology (vlib.gen.common.rebuild_topology).
+Not added: freq outside [0, 1], coincident atoms (H on its acceptor: 0/0 in the law of cosines), topologies listing a
+bond twice (a duplicated donor pair is reported twice: whether "exactly the triplets" means a set is not documented).
+
 Decisions and bands.  Every elementary decision carries its float64 margin and is three-valued:
   band(distance)  = max(1e-5 nm, 14 * 2^-24 * max|coordinate|)    (1e-5: the statement; second term: float32 rounding
                     of the code under observation, exceeds 1e-5 only for atoms several cells away from the origin)
@@ -77,7 +92,7 @@ BUDGET = {"quick": 60, "thorough": 900}
 ENV = {"OMP_WAIT_POLICY": "PASSIVE"}
 GROUPS = {"quick": [dict(name="asan", flavour="asan", workers=1)],
           "thorough": [dict(name="asan", flavour="asan", workers=2)]}
-FLOORS = {"quick": {"bh.present": 120, "bh.absent": 40000, "wn.present": 600, "wn.absent": 250000, "ks.bond-set": 4500,
+FLOORS = {"quick": {"history.in-place-edit": 200, "bh.present": 120, "bh.absent": 40000, "wn.present": 600, "wn.absent": 250000, "ks.bond-set": 4500,
                     "ks.energy": 2000, "ks.structure": 140, "ks.frame-context": 40, "ks.junk-differential": 40,
                     "oracle.selfcheck": 900},
           "thorough": {"bh.present": 3000, "bh.absent": 1000000, "wn.present": 15000, "wn.absent": 5000000,
@@ -160,6 +175,67 @@ def gen_cases(tier, seed):
             d = dict(c)
             d["group"] = "asan"
             yield d
+    yield from _wide_cases(tier, seed)
+
+
+# ----- widening round: input classes the stream above never produces (ids >= 10**6; the stream above is unchanged) -----
+W_SOURCES = {
+    "bh": ["2EQQ.pdb", "ala_ala_ala.pdb", "frame0.h5", "native.pdb", "4waters.pdb", "2waters_baker_hubbard.pdb", "synthetic",
+           "1vii.pdb", "bpti.pdb", "1bpi.pdb", "4OH9.pdb", "imatinib.pdb", "aaqaa-wat.pdb", "issue_1611.pdb", "2koc.pdb",
+           "alanine-dipeptide-explicit.pdb", "GG-tip4pew.pdb", "tip3p_300K_1ATM.pdb"],
+    "ks": ["2EQQ.pdb", "ala_ala_ala.pdb", "frame0.h5", "native.pdb", "1vii.pdb", "bpti.pdb", "1bpi.pdb", "4OH9.pdb",
+           "aaqaa-wat.pdb", "alanine-dipeptide-explicit.pdb", "GG-tip4pew.pdb", "tip3p_300K_1ATM.pdb", "2koc.pdb",
+           "imatinib.pdb", "1am7_protein.pdb", "1vii_sustiva_water.pdb"],
+}
+W_SOURCES["wn"] = W_SOURCES["bh"]
+W_LONG = {"bh": ["2EQQ.pdb", "ala_ala_ala.pdb", "frame0.h5", "4waters.pdb", "synthetic", "1vii.pdb", "issue_1611.pdb"],
+          "ks": ["2EQQ.pdb", "ala_ala_ala.pdb", "frame0.h5", "1vii.pdb", "1bpi.pdb", "aaqaa-wat.pdb"]}
+W_LONG["wn"] = W_LONG["bh"]
+
+
+def _wide_cases(tier, seed):
+    n = 360 if tier == "quick" else 4000
+    for j in range(n):
+        rng = common.rng_for("C14wide", seed, j)
+        kind = KINDS[(j + j // 8) % len(KINDS)]
+        long_ = bool(j % 5 == 0)
+        srcs = (W_LONG if long_ else W_SOURCES)[kind]
+        src = srcs[(3 * j + j // 8) % len(srcs)] if rng.random() < 0.6 else srcs[int(rng.integers(len(srcs)))]
+        nf = int(rng.choice([64, 100, 101, 257])) if long_ else int(rng.choice([1, 1, 2, 3, 5, 8, 10, 20]))
+        w = dict(perm=bool(rng.random() < 0.4), strip=str(rng.choice(["none", "none", "none", "none", "H", "tiny", "tiny"])),
+                 pf=str(rng.choice(["default", "one-field", "class-change"])), positional=bool(rng.random() < 0.3),
+                 argtypes=str(rng.choice(["python", "python", "numpy"])), late_k=int(rng.integers(1, 4)),
+                 derived=str(rng.choice(["none", "none", "slice", "slice-nocopy", "stride", "stride-nocopy", "fancy", "join", "xyz64", "vectors"])))
+        c = dict(i=10 ** 6 + j, seed=common.case_seed(seed, "C14w", j), kind=kind, src=src, tier=tier, n_frames=nf,
+                 noise=float(rng.choice([0.0, 0.0, 0.002, 0.01])),
+                 mode="late" if long_ else str(rng.choice(["frames", "tie", "noisy"])),
+                 cell=str(rng.choice(["none", "own"] + common.CELL_KINDS)), shift=int(rng.choice([0, 0, 1, 3])), w=w)
+        if kind == "bh":
+            k = w["late_k"]
+            if long_:
+                freq = float(rng.choice([0.0, (k - 1) / nf, k / nf, k / nf, (k + 1) / nf, 0.5]))
+            else:
+                freq = float(rng.choice(FREQS)) if rng.random() < 0.85 else float(np.round(rng.uniform(0, 1), 3))
+            c.update(freq=freq, dcut=float(rng.choice([0.25, 0.25, 0.2, 0.3, 0.35])),
+                     acut=float(rng.choice([120, 120, 90, 135, 150, 0, 110.5])))
+            if c["mode"] == "tie":
+                c["n_frames"] = int(rng.choice([10, 20, 30] if freq in (0.1, 0.9) else [2, 4, 8, 10, 16, 20, 30]))
+        if kind in ("bh", "wn"):
+            c.update(exclude_water=bool(rng.random() < 0.5), sidechain_only=bool(rng.random() < 0.3),
+                     periodic=bool(rng.random() < 0.7))
+        if kind == "ks":
+            c["cell"] = "none" if rng.random() < 0.6 else c["cell"]
+        if kind in ("bh", "wn") and not long_ and j % 20 == 3:
+            # thousands of atoms, no spatial subset: whole solvated systems (solvent excluded where it alone would give
+            # > 10^6 candidate triplets) and the whole 2504-atom protein
+            c.update(src=W_BIG[(j // 20) % len(W_BIG)], n_frames=int(rng.integers(1, 3)), mode="frames")
+            c["w"] = dict(w, big=True, strip="none")
+            if c["src"] in ("1vii_sustiva_water.pdb", "GG-tip4pew.pdb"):
+                c["exclude_water"] = True
+        yield c
+
+
+W_BIG = ["1am7_protein.pdb", "1vii_sustiva_water.pdb", "alanine-dipeptide-explicit.pdb", "GG-tip4pew.pdb", "bpti.pdb"]
 
 
 # ------------------------------------------------------------------------------------------------ sources / specs
@@ -216,6 +292,26 @@ class Spec:
         self.bonds = [(a + na if a >= first_atom else a, b + na if b >= first_atom else b) for a, b in self.bonds]
         self.xyz = np.concatenate([self.xyz[:, :first_atom], coords, self.xyz[:, first_atom:]], axis=1)
         return first_atom
+
+    def permute_within_residues(self, rng, frac):
+        """widened class: the atoms of a fraction of the residues are listed in another order (hydrogens before their
+        heavy atoms, O before N, ...); residues stay contiguous blocks of the atom list"""
+        na = len(self.atoms)
+        by_res = {}
+        for k, a in enumerate(self.atoms):
+            by_res.setdefault(a[2], []).append(k)
+        order = []
+        for r in sorted(by_res):
+            blk = by_res[r]
+            if rng.random() < frac:
+                blk = [blk[j] for j in (rng.permutation(len(blk)) if rng.random() < 0.7 else np.arange(len(blk))[::-1])]
+            order.extend(blk)
+        order = np.asarray(order, dtype=np.int64)
+        new_of = np.empty(na, dtype=np.int64)
+        new_of[order] = np.arange(na)
+        self.atoms = [self.atoms[k] for k in order]
+        self.bonds = [(int(new_of[a]), int(new_of[b])) for a, b in self.bonds]
+        self.xyz = self.xyz[:, order]
 
     def build(self):
         import mdtraj as md
@@ -306,6 +402,17 @@ def _select_frames(rng, case, base_xyz):
         frames = [f0] * k + [blown] * (nf - k)
         order = rng.permutation(nf)
         return np.array(frames)[order], dict(tie_k=k)
+    if mode == "late":
+        # widened class: a long trajectory in which the bonds of a frame exist only in the LAST k frames (all earlier
+        # frames are the structure blown up by a factor 3); with a real trajectory as source the last k frames are
+        # consecutive simulation frames
+        k = int(case["w"]["late_k"])
+        start = int(rng.integers(0, max(1, nb - k + 1)))
+        last = base_xyz[(start + np.arange(k)) % nb]
+        f0 = last[0]
+        centre = f0.mean(axis=0)
+        blown = centre + 3.0 * (f0 - centre)
+        return np.concatenate([np.repeat(blown[None], nf - k, axis=0), last], axis=0), (dict(tie_k=k) if nb == 1 else {})
     if nb >= nf and mode == "frames":
         idx = rng.choice(nb, nf, replace=False)
         return base_xyz[idx], {}
@@ -370,7 +477,17 @@ HETERO = {
 }
 
 
-def _edit_ks(rng, spec, ctx):
+W_HETERO = dict(HETERO, **{
+    "ion-CA": ("CA", [("CA", "Ca")]),                                   # calcium: an atom NAMED CA in a one-atom residue
+    "cap-ACE": ("ACE", [("CH3", "C"), ("C", "C"), ("O", "O")]),         # has C and O, lacks N and CA
+    "cap-NME": ("NME", [("N", "N"), ("CH3", "C")]),                      # has N only
+    "cap-NH2": ("NH2", [("N", "N"), ("HN1", "H"), ("HN2", "H")]),
+    "lig-NCACO": ("LIG", [("N", "N"), ("CA", "C"), ("C", "C"), ("O", "O")]),   # a non-protein residue with all four names
+})
+NONSTANDARD = ["DAL", "MSE", "HYP", "CYX", "HID", "SEP", "UNK"]
+
+
+def _edit_ks(rng, spec, ctx, wide=False):
     nres = len(spec.residues)
     nf = spec.xyz.shape[0]
     # delete backbone atoms of a few residues
@@ -408,9 +525,20 @@ def _edit_ks(rng, spec, ctx):
             nm = spec.residues[r][0]
             spec.residues[r] = ("ALA" if nm == "PRO" else "PRO", spec.residues[r][1])
             ctx.observe("edit", "renamed-from-PRO" if nm == "PRO" else "renamed-to-PRO")
+    if wide and rng.random() < 0.4:
+        # widened: non-standard residue names (D-amino acids, modified residues): only the name PRO is special
+        for _ in range(int(rng.integers(1, 5))):
+            r = int(rng.integers(nres))
+            if spec.residues[r][0] != "PRO":
+                spec.residues[r] = (str(rng.choice(NONSTANDARD)), spec.residues[r][1])
+        ctx.observe("edit", "renamed-to-nonstandard")
     if rng.random() < 0.35 and nres > 3:
         # split chains at random residues
-        cuts = sorted(set(int(v) for v in rng.integers(1, nres, int(rng.integers(1, 3)))))
+        ncut = int(rng.integers(1, 3))
+        if wide and rng.random() < 0.4:
+            ncut = int(rng.integers(3, 9))  # widened: many short chains
+            ctx.observe("edit", "many-chain-cuts")
+        cuts = sorted(set(int(v) for v in rng.integers(1, nres, ncut)))
         lab = 0
         newres = []
         base = [ch for _, ch in spec.residues]
@@ -423,7 +551,7 @@ def _edit_ks(rng, spec, ctx):
     if rng.random() < 0.6:
         for _ in range(int(rng.integers(1, 4))):
             nres = len(spec.residues)
-            kind = str(rng.choice(list(HETERO)))
+            kind = str(rng.choice(list(W_HETERO if wide else HETERO)))
             where = str(rng.choice(["prepend", "prepend", "between", "between-chains", "append"]))
             if where == "prepend":
                 pos = 0
@@ -442,7 +570,7 @@ def _edit_ks(rng, spec, ctx):
                 chain = spec.residues[pos - 1][1]
             else:
                 chain = max(ch for _, ch in spec.residues) + 1 + int(rng.integers(100))
-            name, ats = HETERO[kind]
+            name, ats = W_HETERO[kind]
             anchor = spec.xyz[:, int(rng.integers(len(spec.atoms)))]  # (nf,3)
             off = rng.normal(size=3)
             off = off / np.linalg.norm(off) * rng.uniform(0.25, 0.6)
@@ -472,6 +600,33 @@ def _cell_for(rng, case, spec, src_cell, need_half):
         w = common.cell_widths(B).min()
         if small or w / 2 > need_half + 0.05:
             break
+    pf = (case.get("w") or {}).get("pf", "default")
+    if pf == "one-field":
+        # widened class: exactly one of the six cell parameters changes along the trajectory
+        field = int(rng.integers(0, 6))
+        Ls, As = np.tile(L, (nf, 1)), np.tile(A, (nf, 1))
+        for f in range(nf):
+            if field < 3:
+                Ls[f, field] = L[field] * rng.uniform(1.0, 1.25)
+            else:
+                for _ in range(50):
+                    a = A.copy()
+                    a[field - 3] = A[field - 3] + rng.uniform(-5, 5)
+                    if common.cell_valid(a, 0.1) and common.cell_widths(common.cell_vectors64(L, a)).min() / 2 > need_half + 0.05:
+                        As[f] = a
+                        break
+        return Ls, As
+    if pf == "class-change":
+        # widened class: the cell class changes along the trajectory
+        Ls, As = [L], [A]
+        for f in range(1, nf):
+            for _ in range(200):
+                L2, A2 = common.random_cell(rng, str(rng.choice(common.CELL_KINDS)), lo=2.2, hi=6.0)
+                if common.cell_widths(common.cell_vectors64(L2, A2)).min() / 2 > need_half + 0.05:
+                    break
+            Ls.append(L2)
+            As.append(A2)
+        return np.array(Ls), np.array(As)
     per_frame = rng.random() < 0.25
     if per_frame:
         scale = rng.uniform(0.97, 1.05, nf)
@@ -496,14 +651,37 @@ def _make(case, ctx, kind):
         spec = Spec(base["atoms"], base["residues"], base["bonds"], frames)
         limit = MAX_ATOMS[case.get("tier", "quick")]
         if kind == "ks":
+            limit = 100000 if nf <= 30 else 1500
+        elif (case.get("w") or {}).get("big"):
             limit = 100000
+        elif nf > 30:
+            limit = 160
         elif nf > 10:
             limit = limit // 2
         _subset(rng, spec, limit)
+    w = case.get("w") or {}
+    if w.get("strip") == "H":
+        # widened class: no hydrogen anywhere (crystal structures): no donor exists
+        keep = [k for k, a in enumerate(spec.atoms) if a[1].symbol != "H"]
+        if len(keep) >= 2:
+            spec.keep_atoms(keep)
+        ctx.observe("edit", "all-hydrogens-removed")
+    elif w.get("strip") == "tiny":
+        # widened class: one to three consecutive residues
+        nres = len(spec.residues)
+        k = int(rng.integers(1, 4))
+        r0 = int(rng.integers(0, max(1, nres - k + 1)))
+        keep = [i for i, a in enumerate(spec.atoms) if r0 <= a[2] < r0 + k]
+        if len(keep) >= 2:
+            spec.keep_atoms(keep)
+        ctx.observe("edit", f"cut-down-to-{min(k, nres)}-residues")
     if kind == "ks":
-        _edit_ks(rng, spec, ctx)
+        _edit_ks(rng, spec, ctx, wide=bool(w))
     else:
         _edit_bh(rng, spec, ctx)
+    if w.get("perm"):
+        spec.permute_within_residues(rng, float(rng.choice([0.2, 0.6, 1.0])))
+        ctx.observe("edit", "atoms-reordered-within-residues")
     need_half = 0.6
     cell = _cell_for(rng, case, spec, src_cell, need_half)
     xyz = spec.xyz
@@ -528,6 +706,14 @@ def _make(case, ctx, kind):
     else:
         t = md.Trajectory(xyz.astype(np.float32), top)
         B = None
+    if w.get("derived", "none") != "none":
+        # widened class: the trajectory is obtained the way users obtain one (cut out of / strided from a longer one,
+        # with or without copying, joined from pieces, float64 coordinates assigned, cell assigned as box vectors);
+        # the reference reads coordinates and lattice from the object that is handed to mdtraj
+        t = common.derive_traj(t, w["derived"], common.rng_for("C14derive", case["seed"]))
+        if B is not None:
+            B = t.unitcell_vectors.astype(np.float64)
+        ctx.observe("trajectory obtained by", w["derived"])
     x64 = t.xyz.astype(np.float64)
     tab = ref.Tables(top)
     info["M"] = float(np.abs(x64).max()) if x64.size else 0.0
@@ -616,6 +802,7 @@ def _run_bh(case, ctx):
     Bs = B if (periodic and B is not None) else None
     ctx.observe("bh.cell", (case["cell"] if B is not None else "none") + ("" if periodic else "/periodic=False"))
     ctx.observe("bh.freq", case["freq"])
+    ctx.observe("bh.atoms", "<=1100" if t.n_atoms <= 1100 else ">1100")
     ctx.observe("frames", t.n_frames)
     ctx.observe("src", case["src"])
     kw = dict(freq=case["freq"], exclude_water=case["exclude_water"], periodic=periodic,
@@ -624,7 +811,23 @@ def _run_bh(case, ctx):
     if len(tab.bonds) == 0:
         ctx.skip("bh", "topology without bonds (documented refusal)")
         return
-    out = md.baker_hubbard(t, **kw)
+    w = case.get("w") or {}
+    if w:
+        ctx.observe("bh.arguments", ("positional" if w["positional"] else "keyword") + "/" + w["argtypes"])
+        ctx.observe("bh.cell-along-trajectory", w["pf"] if B is not None else "no cell")
+    ckw = dict(kw)
+    if w.get("argtypes") == "numpy":
+        # widened: numpy scalars where python scalars are documented (they are what array-driven scans pass)
+        ckw.update(freq=np.float64(kw["freq"]), exclude_water=np.bool_(kw["exclude_water"]), periodic=np.bool_(kw["periodic"]),
+                   sidechain_only=np.bool_(kw["sidechain_only"]), distance_cutoff=np.float64(kw["distance_cutoff"]),
+                   angle_cutoff=np.float64(kw["angle_cutoff"]))
+        if float(kw["freq"]) in (0.0, 1.0):
+            ckw["freq"] = int(kw["freq"])
+    if w.get("positional"):
+        out = md.baker_hubbard(t, ckw["freq"], ckw["exclude_water"], ckw["periodic"], ckw["sidechain_only"], ckw["distance_cutoff"],
+                               ckw["angle_cutoff"])
+    else:
+        out = md.baker_hubbard(t, **ckw)
     if not _rows_ok(out, ctx, "bh.structure", "baker_hubbard"):
         return
     state, n_angle = ref.baker_hubbard_frames(x64, Bs, trip, case["dcut"], case["acut"], info["M"])
@@ -647,6 +850,8 @@ def _run_bh(case, ctx):
     if info.get("tie_k") is not None:
         ctx.observe("bh.tie", f"k/n {'==' if abs(info['tie_k'] / nf - case['freq']) < 1e-12 else '!='} freq")
     _selfcheck(ctx, rng, x64, Bs, trip)
+    if w:
+        _history_differential(case, ctx, t, rng, "bh", lambda tr: md.baker_hubbard(tr, **kw), _same_rows)
 
 
 def _selfcheck(ctx, rng, x64, Bs, trip):
@@ -669,6 +874,7 @@ def _run_wn(case, ctx):
     periodic = case["periodic"]
     Bs = B if (periodic and B is not None) else None
     ctx.observe("wn.cell", (case["cell"] if B is not None else "none") + ("" if periodic else "/periodic=False"))
+    ctx.observe("wn.atoms", "<=1100" if t.n_atoms <= 1100 else ">1100")
     ctx.observe("frames", t.n_frames)
     ctx.observe("src", case["src"])
     kw = dict(exclude_water=case["exclude_water"], periodic=periodic, sidechain_only=case["sidechain_only"])
@@ -676,7 +882,17 @@ def _run_wn(case, ctx):
         ctx.skip("wn", "topology without bonds (documented refusal)")
         return
     trip, undoc = ref.bond_triplets(tab, case["exclude_water"], case["sidechain_only"])
-    out = md.wernet_nilsson(t, **kw)
+    w = case.get("w") or {}
+    if w:
+        ctx.observe("wn.arguments", ("positional" if w["positional"] else "keyword") + "/" + w["argtypes"])
+        ctx.observe("wn.cell-along-trajectory", w["pf"] if B is not None else "no cell")
+    ckw = dict(kw)
+    if w.get("argtypes") == "numpy":
+        ckw = {k: np.bool_(v) for k, v in kw.items()}
+    if w.get("positional"):
+        out = md.wernet_nilsson(t, ckw["exclude_water"], ckw["periodic"], ckw["sidechain_only"])
+    else:
+        out = md.wernet_nilsson(t, **ckw)
     if not isinstance(out, list) or len(out) != t.n_frames:
         ctx.violation("wn.structure", "wernet_nilsson:not-one-entry-per-frame",
                       f"wernet_nilsson returned {type(out).__name__} of length {len(out) if hasattr(out, '__len__') else None} "
@@ -696,6 +912,8 @@ def _run_wn(case, ctx):
                 ctx.violation("wn.present" if which == "missing" else "wn.absent", f"wernet_nilsson:{which}[{per}]",
                               f"wernet_nilsson {which} triplet {tuple(int(v) for v in trip[k])} in frame {f}", options=kw, frame=f)
     _selfcheck(ctx, rng, x64, Bs, trip)
+    if w:
+        _history_differential(case, ctx, t, rng, "wn", lambda tr: md.wernet_nilsson(tr, **kw), _same_rows)
 
 
 # ------------------------------------------------------------------------------------------------ Kabsch-Sander
@@ -862,6 +1080,95 @@ def _run_ks(case, ctx):
                                diff, kst, _entries(got[pos]), _entries(alone[0]), junk=junk_kind, position=pos)
         else:
             ctx.ok("ks.junk-differential")
+    if case.get("w"):
+        _history_differential(case, ctx, t, rng, "ks", lambda tr: md.kabsch_sander(tr), _same_ks)
+
+
+def _history_differential(case, ctx, t, rng, kind, call, same):
+    """widened class: state that may live on the Topology object across calls.  `call(traj)` has already run on `t`;
+    its Topology object is now edited IN PLACE through public attributes / the public API, `call` runs again on the same
+    object and on a freshly constructed equal topology (vlib.gen.common.rebuild_topology): both must agree exactly
+    (`same(a, b)` -> True).  What the functions return for a topology built from scratch is judged by the monitors
+    above; this one only asks that nothing remembered from before the edit leaks into the answer."""
+    import mdtraj as md
+    from mdtraj.core import element as elem
+    top = t.topology
+    atoms = list(top.atoms)
+    residues = list(top.residues)
+    if not atoms:
+        return
+    xyz = t.xyz.copy()
+    if kind == "ks":
+        edit = str(rng.choice(["residue->PRO", "backbone-atom-renamed", "insert_atom", "residue-from-PRO"]))
+    else:
+        edit = str(rng.choice(["water<->non-water", "atom-renamed", "element-changed", "add_bond", "insert_atom"]))
+    if edit == "residue->PRO":
+        r = residues[int(rng.integers(len(residues)))]
+        r.name = "ALA" if r.name == "PRO" else "PRO"
+    elif edit == "residue-from-PRO":
+        pros = [r for r in residues if r.name == "PRO"] or residues
+        pros[int(rng.integers(len(pros)))].name = "ALA"
+    elif edit == "backbone-atom-renamed":
+        bb = [a for a in atoms if a.name in ("N", "CA", "C", "O")] or atoms
+        a = bb[int(rng.integers(len(bb)))]
+        a.name = a.name + "X"
+    elif edit == "water<->non-water":
+        wat = [r for r in residues if r.name in ref.WATER_NAMES]
+        if wat and rng.random() < 0.6:
+            wat[int(rng.integers(len(wat)))].name = "LIG"
+        else:
+            residues[int(rng.integers(len(residues)))].name = "HOH"
+    elif edit == "atom-renamed":
+        a = atoms[int(rng.integers(len(atoms)))]
+        a.name = "CA" if a.name not in ("N", "CA", "C", "O", "H", "HA") else "XZ"   # flips the sidechain status of the atom
+    elif edit == "element-changed":
+        pool = [a for a in atoms if a.element.symbol in ("N", "O", "H")] or atoms
+        a = pool[int(rng.integers(len(pool)))]
+        a.element = elem.carbon if a.element.symbol != "H" else elem.oxygen
+    elif edit == "add_bond":
+        hs = [a for a in atoms if a.element.symbol == "H"]
+        xs = [a for a in atoms if a.element.symbol in ("N", "O")]
+        if not hs or not xs:
+            edit = "atom-renamed(no H or no N/O to bond)"
+            atoms[0].name = "XZ"
+        else:
+            top.add_bond(xs[int(rng.integers(len(xs)))], hs[int(rng.integers(len(hs)))])
+    if edit == "insert_atom":
+        r = residues[int(rng.integers(len(residues)))]
+        first = r.atom(0).index
+        top.insert_atom("XI", elem.nitrogen if rng.random() < 0.5 else elem.oxygen, r, index=first, rindex=0)
+        xyz = np.insert(xyz, first, xyz[:, first] + np.float32(0.13), axis=1)
+    ctx.observe("in-place topology edit between calls", f"{kind}:{edit}")
+    cell = {}
+    if t.unitcell_lengths is not None:
+        cell = dict(unitcell_lengths=t.unitcell_lengths.copy(), unitcell_angles=t.unitcell_angles.copy())
+    fn = {"bh": "baker_hubbard", "wn": "wernet_nilsson", "ks": "kabsch_sander"}[kind]
+    try:
+        got = call(md.Trajectory(xyz.copy(), top, **cell))                     # the SAME, edited Topology object
+    except Exception as e:
+        got = e
+    try:
+        want = call(md.Trajectory(xyz.copy(), common.rebuild_topology(top), **cell))
+    except Exception as e:
+        want = e
+    if isinstance(want, Exception) or isinstance(got, Exception):
+        okk = isinstance(want, Exception) and isinstance(got, Exception) and type(want) is type(got)
+        ctx.check(okk, "history.in-place-edit", f"{fn}:after-in-place-topology-edit:raises-unlike-fresh-topology",
+                  f"after {edit}: edited object gives {got!r:.200}, fresh equal topology gives {want!r:.200}")
+        return
+    ctx.check(same(got, want), "history.in-place-edit", f"{fn}:result-after-in-place-topology-edit-differs-from-fresh-topology",
+              f"{fn} called again after an in-place edit of the Topology ({edit}) differs from the call on a freshly built equal topology",
+              edit=edit)
+
+
+def _same_rows(a, b):
+    if isinstance(a, list):
+        return isinstance(b, list) and len(a) == len(b) and all(_same_rows(x, y) for x, y in zip(a, b))
+    return np.asarray(a).shape == np.asarray(b).shape and bool(np.array_equal(np.asarray(a), np.asarray(b)))
+
+
+def _same_ks(a, b):
+    return len(a) == len(b) and all(not _same(_entries(x), _entries(y)) for x, y in zip(a, b))
 
 
 def run_case(case, ctx):
